@@ -209,8 +209,10 @@ impl Ctx {
             .ok();
     }
 
+    /// Quick-sized workload? The sanitizer / stock-release passes of the thorough tier (sub =
+    /// "asan" / "plain") repeat the quick-sized workload under a different build.
     pub fn quick(&self) -> bool {
-        self.tier == Tier::Quick
+        self.tier == Tier::Quick || self.sub == "asan" || self.sub == "plain"
     }
 
     /// pick a size by tier
